@@ -10,6 +10,8 @@ for mp in sorted(glob.glob('/verif/seeded/*/meta.json')):
     for k in det:
         sig += m['checks'][k]['signatures'][:2]
     need = (m.get('summary') or m.get('needs_to_manifest', ''))[:150].replace('|', '/').replace('\n', ' ')
+    if m.get('status') == 'obsolete':
+        det = ['(obsolete: ' + m['obsolete_reason'][:70] + '...) earlier: ' + ', '.join(det)]
     rows.append('| %s | %s | %s | %s | %s |' % (m['name'], m['breaks_property'], ', '.join(det) or '-', ', '.join(mis) or '-', '; '.join(sig)[:110]))
 print('| seeded change | breaks | detected by (quick tier) | not detected by | first signatures |')
 print('|---|---|---|---|---|')
